@@ -12,3 +12,4 @@ import EdxmlProps.C12
 import EdxmlProps.C11
 import EdxmlProps.C03
 import EdxmlProps.C13
+import EdxmlProps.C10
